@@ -14,6 +14,7 @@ mod scen_agg;
 mod scen_bridge;
 mod scen_emf;
 mod scen_global;
+mod scen_hist;
 mod scen_queue;
 mod scen_sample;
 mod scen_time;
